@@ -686,8 +686,15 @@ static bool expand_macro(Token **rest, Token *tok) {
     for (Token *t = body; t->kind != TK_EOF; t = t->next)
       t->origin = tok;
     *rest = append(body, tok->next);
-    (*rest)->at_bol = tok->at_bol;
-    (*rest)->has_space = tok->has_space;
+    if (body->kind != TK_EOF) {
+      (*rest)->at_bol = tok->at_bol;
+      (*rest)->has_space = tok->has_space;
+    } else if (tok->at_bol || tok->has_space) {
+      // The macro expands to nothing, so *rest is the token after it.
+      // It keeps its place in the line but stays apart from what
+      // precedes the macro.
+      (*rest)->has_space = true;
+    }
     return true;
   }
 
@@ -714,8 +721,12 @@ static bool expand_macro(Token **rest, Token *tok) {
   for (Token *t = body; t->kind != TK_EOF; t = t->next)
     t->origin = macro_token;
   *rest = append(body, tok->next);
-  (*rest)->at_bol = macro_token->at_bol;
-  (*rest)->has_space = macro_token->has_space;
+  if (body->kind != TK_EOF) {
+    (*rest)->at_bol = macro_token->at_bol;
+    (*rest)->has_space = macro_token->has_space;
+  } else if (macro_token->at_bol || macro_token->has_space) {
+    (*rest)->has_space = true;
+  }
   return true;
 }
 
